@@ -55,7 +55,8 @@ Definition valid_cfg (hs : list handler) (action : option handler) : bool :=
 
 Lemma render_val_nz v : ops_nz (render_val v) = true.
 Proof.
-  destruct v as [s|[b|]|[e|]|z|[p|]|]; cbn; try reflexivity; try (destruct s; reflexivity); try (destruct b; reflexivity).
+  destruct v as [s|[b|]|[e|]|z|[p|]|[pb|]|]; cbn; try reflexivity; try (destruct s; reflexivity); try (destruct b; reflexivity);
+    try (destruct pb; reflexivity).
   destruct z; reflexivity.
 Qed.
 
@@ -63,8 +64,8 @@ Lemma render_nz r : ret_nz r = true -> ops_nz (render r) = true.
 Proof.
   destruct r as [|v0 [|v1 [|v2 r]]]; intros H; try reflexivity.
   - cbn [render]. destruct v0; apply render_val_nz.
-  - cbn [render]. destruct v0 as [s|b|e|z|p|]; cbn [is_str_or_bytes];
-      try (destruct v1 as [?|?|[?|]|?|?|]; apply render_val_nz); try reflexivity.
+  - cbn [render]. destruct v0 as [s|b|e|z|p|pb|]; cbn [is_str_or_bytes];
+      try (destruct v1 as [?|?|[?|]|?|?|?|]; apply render_val_nz); try reflexivity.
     cbn [ret_nz] in H. cbn [ops_nz forallb]. rewrite H. apply render_val_nz.
   - cbn. destruct v0; reflexivity.
 Qed.
